@@ -504,7 +504,10 @@ func (r *c01Run) runCase(p *pgProgram, id int) {
 	// ---- Go-side oracle for template programs: the value computed natively by the harness
 	if p.Oracle != nil {
 		sigO := "lazy stage " + p.Oracle.Stage + " consumed after further lets"
-		if p.Oracle.Kind == "twice" {
+		if p.Oracle.Kind == "iter" {
+			sum.Count("boosted_shapes", "state kept in a map/list for 11-40 steps of a recursion or fold: "+p.Oracle.Mod)
+			sigO = "state kept for many steps by " + p.Oracle.Mod
+		} else if p.Oracle.Kind == "twice" {
 			sum.Count("boosted_shapes", "let-bound list from a lazy stage extended twice ("+p.Oracle.Mod+"): "+p.Oracle.Stage)
 			sigO = "let-bound list from " + p.Oracle.Stage + " extended twice by " + p.Oracle.Mod
 		} else {
@@ -560,6 +563,10 @@ func c01TwiceTuples() [][]*Tree {
 		return t
 	}
 	return [][]*Tree{c01Tup(li(1, 2, 3), c01Ti(100)), c01Tup(li(4, 1, 5, 7, 2, 9), c01Ti(7)), c01Tup(li(2, 3, 4, 5, 6, 7, 8), c01Ti(31))}
+}
+
+func c01IterTuples() [][]*Tree {
+	return [][]*Tree{c01Tup(c01Ti(5), c01Ti(11)), c01Tup(c01Ti(2), c01Ti(23)), c01Tup(c01Ti(7), c01Ti(40))}
 }
 
 func c01Corpus() []*pgProgram {
@@ -628,6 +635,9 @@ func c01Corpus() []*pgProgram {
 		pgTwiceProgram("plus", "index", "append", 1, 3, c01TwiceTuples()),
 		pgTwiceProgram("top", "none", "plus", 1, 2, c01TwiceTuples()),
 		pgTwiceProgram("map", "size", "closure", 2, 2, c01TwiceTuples()),
+		// a recursion / fold that keeps its state in a map or list for 11..40 steps
+		pgIterProgram("replace", c01IterTuples()), pgIterProgram("put", c01IterTuples()),
+		pgIterProgram("append", c01IterTuples()), pgIterProgram("fold", c01IterTuples()),
 		mk(pgNFunc("fac", []string{"n"}, pgNIf(pgNOp("<=", pgNId("n"), pgNInt(0)), pgNInt(1), pgNOp("*", pgNId("n"), pgNCall("closure", pgNId("fac"), pgNOp("-", pgNId("n"), pgNInt(1))))),
 			pgNCall("closure", pgNId("fac"), pgNOp("%", x(), pgNInt(6)))), ints),
 	}
@@ -699,7 +709,9 @@ func c01StageCorpus() []*pgProgram {
 	fp := func(st *pgNode) *pgNode { // st.mapReduce(0, (s,v) -> s*3+v)
 		return pgNMethod("method", st, "mapReduce", pgNInt(0), clo([]string{"s", "v"}, op("+", op("*", id("s"), pgNInt(3)), id("v"))))
 	}
-	m := func(recv *pgNode, name string, args ...*pgNode) *pgNode { return pgNMethod("method", recv, name, args...) }
+	m := func(recv *pgNode, name string, args ...*pgNode) *pgNode {
+		return pgNMethod("method", recv, name, args...)
+	}
 	mk := func(t *pgNode) *pgProgram {
 		return &pgProgram{T: t, ArgNames: []string{"l", "n"}, Tuples: tuples, Stream: "corpus"}
 	}
